@@ -309,14 +309,14 @@ PROPS["C09"] = {
 
 PROPS["C10"] = {
     "level": "proof",
-    "verus": [{"unit": "walkers", "rlimit": 200}, {"unit": "unchecked", "rlimit": 300}],
+    "verus": [{"unit": "walkers", "rlimit": 200}, {"unit": "unchecked", "rlimit": 300}, {"unit": "walkers_unchecked", "rlimit": 400}],
     "kani": K_BITS + K_PXOR + K_STRBITS + K_UNCHECKED,
     "trusted_base": [T1, T2, T3, T4, T6, T8, VSTD, KANI, PERR,
                      "skip_string_unchecked is proved for every WELL-FORMED literal (its unsafe contract); nothing is claimed for it on malformed input",
                      "skip_container_loop (bracket counting over 64-bit masks) is NOT decided: CBMC does not finish; skip_container, get_next_token (bounded Kani twin only, thorough tier) and the unchecked walkers are not under contract",
                      "decoded()/decodable() of member names are uninterpreted in unit walkers (decoder contracts: C09)"],
-    "level_text": "Verus proof that the checked walkers get_from_object_checked / get_from_array_checked stop exactly at the value of the FIRST member whose decoded name equals the key (resp. the i-th element) and only after a well-formed prefix (object_lookup / array_lookup specs); Verus proof that skip_string_unchecked — 32-lane loop with the escape carry, early-exit test and scalar tail — ends on every well-formed literal of any length exactly where the validating skipper ends, with the same escape status; Kani/CBMC complete proofs of the unchecked skipper's bit kernels (escaped bits with carry, prefix xor, the 64-byte in-string mask with both carries)",
-    "level_note": "agreement of the unchecked variants on well-formed input is argued from the kernels, not proved end to end",
+    "level_text": "Verus proof that the checked walkers get_from_object_checked / get_from_array_checked stop exactly at the value of the FIRST member whose decoded name equals the key (resp. the i-th element) and only after a well-formed prefix (object_lookup / array_lookup specs); Verus proof that the UNCHECKED walkers get_from_object / get_from_array, started on a well-formed value, give the same answer as the checked ones (same lookup specs); Verus proof that skip_string_unchecked — 32-lane loop with the escape carry, early-exit test and scalar tail — and skip_number_unsafe end on every well-formed literal of any length exactly where the validating skipper ends, with the same escape status; Kani/CBMC complete proofs of the unchecked skipper's bit kernels (escaped bits with carry, prefix xor, the 64-byte in-string mask with both carries)",
+    "level_note": "unchecked side: walkers, string and number skippers proved; skip_container (bracket-counting bitmap loop) and get_next_token enter through ASSUMED contracts (their bit kernels are proved by Kani; bounded twins in the thorough tier); get_from_with_iter's generic path loop and the input carriers are not under contract",
     "technique": TECH_K,
     "explanation": "bit kernels of the unchecked skipper equal their scalar definitions",
 }
